@@ -606,10 +606,14 @@ func (h *c13Hist) pickKeys(n int) []string {
 
 // ---- C13 --------------------------------------------------------------------------------
 
-func c13Case(c *ctx, faultBudget *int) error {
+func c13Case(c *ctx, faultBudget *int, forceTick bool) error {
 	rng := c.rng
 	nctx := 1 + rng.Intn(2)
 	nrepo := 1 + rng.Intn(3)
+	if forceTick {
+		// several repositories scanned while ticker-driven chunk uploads are in flight
+		nctx, nrepo = 2, 2+rng.Intn(2)
+	}
 	c.w.Case("kind=c13 nctx=%d nrepo=%d", nctx, nrepo)
 	defer c.w.End()
 	h, err := c13NewHist(c, "c13", nctx, nrepo)
@@ -633,8 +637,11 @@ func c13Case(c *ctx, faultBudget *int) error {
 		}
 		// index build: possibly crashed and resumed several times
 		sp := c13IndexSpec{n: rng.Pick(1, 2, 2, 3, 3, 4, 5, 1000), ctxs: h.allCtxs(), crash: -1}
-		sp.tick = rng.Intn(5) == 0
-		if withFaults && rng.Intn(2) == 0 {
+		sp.tick = rng.Intn(5) == 0 || forceTick
+		if forceTick {
+			sp.n = rng.Pick(2, 3, 3, 4)
+		}
+		if withFaults && !forceTick && rng.Intn(2) == 0 {
 			sp.fput = make([]int, 1+rng.Intn(3))
 			sp.fput[rng.Intn(len(sp.fput))] = 1
 			if rng.Intn(4) == 0 && len(h.chunks()) == 0 {
@@ -644,7 +651,7 @@ func c13Case(c *ctx, faultBudget *int) error {
 			}
 			*faultBudget--
 		}
-		if rng.Intn(100) < 45 {
+		if rng.Intn(100) < 45 && !forceTick {
 			sp.crash = rng.Intn(5)
 		}
 		ok := h.index(sp)
@@ -911,12 +918,12 @@ func c13(c *ctx) error {
 	if err := c14DirectedCases(c); err != nil {
 		return err
 	}
-	n, budget := 26, 8
+	n, budget := 39, 8
 	if c.thorough() {
 		n, budget = 1300, 300
 	}
 	for i := 0; i < n; i++ {
-		if err := c13Case(c, &budget); err != nil {
+		if err := c13Case(c, &budget, i%3 == 2); err != nil {
 			return err
 		}
 	}
